@@ -288,7 +288,11 @@ pub fn run(base: Instant, c: &Case, dump: bool) -> Out {
                     if final_remote != Some(target) {
                         viol.push(("did-not-follow-client".into(), format!("new path {target} was validated at {tv:?} but the server's remote_address() is {final_remote:?}")));
                     }
-                } else if acted && workload_done(&p) && final_remote != Some(target) && c.dev.is_none() {
+                } else if acted && workload_done(&p) && final_remote != Some(target) && c.dev.is_none()
+                    // (the premise "the client keeps sending from there": without the ping of the other
+                    // workloads a download that was all but complete may leave the client silent)
+                    && p.w.recs.iter().any(|r| matches!(r, Rec::Deliver { node, src, routed: Routed::Conn(_), .. } if *node == SERVER && *src == target))
+                {
                     viol.push(("new-path-never-validated".into(), format!("the client kept sending from {target} but no PATH_RESPONSE echoing a challenge sent there was delivered; server remote {final_remote:?}")));
                 } else if acted && matches!(c.kind, Kind::Rebind { .. }) && challenges.get(&target).map_or(false, |v| !v.is_empty()) {
                     // validation started (a challenge went to the new address) and a single datagram was
